@@ -1723,6 +1723,16 @@ def gen_generator(repo: Path, notes: list, gate_ok: bool) -> str:
         gate_ok=gate_ok)
 
 
+def gen_functional_obj(repo: Path, notes: list, gate_ok: bool) -> str:
+    """Gen/FunctionalObj.lean: `distinct_add` of utils/functional.py (the list it extends in place is handed back)"""
+    src = "utype/utils/functional.py"
+    return gen_group(
+        repo, notes, src_file=src, cls_name=None, ns="FunctionalObj", title="utype/utils/functional.py (multi, distinct_add)",
+        funcs=[{"py": "multi", "find": _find_module_func(repo, src, "multi"), "has_self": False, "arity": 1},
+               {"py": "distinct_add", "find": _find_module_func(repo, src, "distinct_add"), "has_self": False, "arity": 2}],
+        gate_ok=gate_ok)
+
+
 def gen_encode(repo: Path, notes: list, gate_ok: bool) -> str:
     """Gen/Encode.lean: `js_unsafe` of utils/encode.py (the module constants it compares with are inlined)"""
     src = "utype/utils/encode.py"
@@ -1774,6 +1784,7 @@ def main():
     files["Encode.lean"] = gen_encode(repo, notes, unprov_ok)
     files["Parse.lean"] = gen_parse(repo, notes, unprov_ok)
     files["Generator.lean"] = gen_generator(repo, notes, unprov_ok)
+    files["FunctionalObj.lean"] = gen_functional_obj(repo, notes, unprov_ok)
     files["JsonTables.lean"] = gen_json_tables(repo, notes)
     files["CodecTables.lean"] = gen_codec_tables(repo, notes)
     files["NOTES.txt"] = "\n".join(notes) + ("\n" if notes else "")
